@@ -25,7 +25,8 @@ def _setup() -> int:
     import datashard  # noqa: F401
 
     src = os.path.realpath(os.path.dirname(datashard.__file__))
-    if not src.startswith(os.path.realpath("/repo")):
+    want = os.path.realpath(os.environ.get("DATASHARD_SRC", "/repo/src"))
+    if not src.startswith(want):
         print(f"datashard imported from {src}, expected /repo")
         bad += 1
     print(f"setup: {len(glob.glob(os.path.join(SPEC, '*.tla')))} spec modules parsed, datashard from {src}, failures={bad}")
